@@ -55,12 +55,25 @@ DminExtR(d, target) ==
 \* super-additive closure: extend the prefix until its last entry is >= target
 DminExt(d, target) == DminExtR(Normalize(d), target)
 
+RECURSIVE DminExtToLenR(_, _)
+DminExtToLenR(d, n) == IF Len(d) >= n THEN d ELSE DminExtToLenR(Append(d, NextDmin(d)), n)
+
+\* the prefix-respecting sequences that ALSO respect an extra bound "njobs events span at least dist":
+\* closure up to that entry, the entry raised to dist, closure continued
+DminWithBound(d, njobs, dist, target) ==
+    LET base == DminExtToLenR(Normalize(d), njobs - 1)
+        raised == [base EXCEPT ![njobs - 1] = MaxOf(@, dist)]
+    IN DminExtR(raised, target)
 \* number of events that fit in a window of length delta > 0, given an
 \* (extended) prefix whose last entry is >= delta
 CountWithin(dx, delta) == 1 + Cardinality({i \in 1..Len(dx) : dx[i] < delta})
 
 CurveEtaTable(d, H) ==
     LET dx == DminExt(d, H)
+    IN [i \in 1..(H + 1) |-> IF i = 1 THEN 0 ELSE CountWithin(dx, i - 1)]
+
+CurveEtaTableWithBound(d, njobs, dist, H) ==
+    LET dx == DminWithBound(d, njobs, dist, H)
     IN [i \in 1..(H + 1) |-> IF i = 1 THEN 0 ELSE CountWithin(dx, i - 1)]
 
 \* ---- generic models -------------------------------------------------------
